@@ -3,6 +3,7 @@
 //     xxhash.Sum64String), the direction of the comparator, the clamp of topK;
 //   - every call of RendezvousHash in package cluster (non-test files): key expression, server-list
 //     expression, k, and how the result is used.
+//
 // Anything that does not have the expected shape makes the tool fail (a broken tie, never a guess).
 package main
 
@@ -31,7 +32,9 @@ func src(fset *token.FileSet, n ast.Node) string {
 	return b.String()
 }
 
-func q(s string) string { return "\"" + strings.ReplaceAll(strings.ReplaceAll(s, "\\", "\\\\"), "\"", "\\\"") + "\"" }
+func q(s string) string {
+	return "\"" + strings.ReplaceAll(strings.ReplaceAll(s, "\\", "\\\\"), "\"", "\\\"") + "\""
+}
 
 type call struct{ file, fn, key, servers, k, use string }
 
